@@ -256,3 +256,214 @@ Qed.
 
 Lemma source_windows_rejects chunks pre : ~ preselect_valid pre -> source_windows chunks pre = None.
 Proof. intro H. unfold source_windows. apply preselect_index_rejects in H. rewrite H. reflexivity. Qed.
+
+(* ================================================================================================ *)
+(* 2. the errors option and the getters *)
+
+Lemma getter_of_placeholder : getter_of (EStr "placeholder") = GPlaceholder false.
+Proof. reflexivity. Qed.
+Lemma getter_of_dryrun : getter_of (EStr "dryrun") = GPlaceholder true.
+Proof. reflexivity. Qed.
+Lemma getter_of_raise : getter_of (EStr "raise") = GRaise.
+Proof. reflexivity. Qed.
+Lemma getter_of_num v : getter_of (ENum v) = GDefault v.
+Proof. reflexivity. Qed.
+Lemma getter_of_other s : s <> "placeholder"%string -> s <> "dryrun"%string -> s <> "raise"%string ->
+  getter_of (EStr s) = GBadErrors.
+Proof.
+  intros A B C. unfold getter_of, gen_errors_mode. cbn [existsb andb].
+  apply String.eqb_neq in A, B, C. rewrite A, B, C. reflexivity.
+Qed.
+
+(* what a block evaluates to, per mode *)
+Lemma read_block_modes present v :
+  read_block (getter_of (EStr "placeholder")) present = (if present then BData else BPlaceholder) /\
+  read_block (getter_of (EStr "dryrun")) present = BPlaceholder /\
+  read_block (getter_of (EStr "raise")) present = (if present then BData else BRaise) /\
+  read_block (getter_of (ENum v)) present = (if present then BData else BFill v).
+Proof. destruct present; repeat split; reflexivity. Qed.
+
+Lemma read_block_bad s present : s <> "placeholder"%string -> s <> "dryrun"%string -> s <> "raise"%string ->
+  read_block (getter_of (EStr s)) present = BRaise.
+Proof. intros A B C. rewrite getter_of_other by assumption. reflexivity. Qed.
+
+(* ChunkStoreVisFlagsWeights: an absent flags chunk is a DATA_LOST-filled array, an absent chunk of any other array
+   a PlaceholderChunk; a present chunk is the stored chunk; no block ever raises *)
+Lemma vfw_block_cases c a J :
+  vfw_block c a J = if placeholder c a J then (if Nat.eqb a A_FLAGS then BFill DATA_LOST else BPlaceholder) else BData.
+Proof.
+  unfold vfw_block, vfw_errors, placeholder.
+  destruct (Nat.eqb a A_FLAGS); destruct (c_miss c a (blk_ids (darr c a) J)); reflexivity.
+Qed.
+
+Lemma vfw_block_never_raises c a J : vfw_block c a J <> BRaise.
+Proof. rewrite vfw_block_cases. destruct (placeholder c a J), (Nat.eqb a A_FLAGS); discriminate. Qed.
+
+Lemma io_filled_refines c a p : a <> A_FLAGS -> io_filled c a p = Some (filled c a p).
+Proof.
+  intro N. unfold io_filled, filled. rewrite vfw_block_cases.
+  apply Nat.eqb_neq in N. rewrite N.
+  destruct (placeholder c a (map fst (locs (chunks_of (darr c a)) p))); reflexivity.
+Qed.
+
+Lemma io_vis_refines c p : io_vis c p = Some (model_vis c p).
+Proof. apply io_filled_refines. discriminate. Qed.
+
+Lemma io_weights_refines c p : io_weights c p = Some (model_weights c p).
+Proof. unfold io_weights, model_weights. rewrite !io_filled_refines by discriminate. reflexivity. Qed.
+
+Lemma apply_data_lost_ext ph1 ph2 : forall lost orig q,
+  (forall e, In e lost -> ph1 (fst (fst e)) (snd (fst e)) = ph2 (fst (fst e)) (snd (fst e))) ->
+  apply_data_lost ph1 orig lost q = apply_data_lost ph2 orig lost q.
+Proof.
+  unfold apply_data_lost. induction lost as [|e lost IH]; intros orig q H; [reflexivity|].
+  cbn [fold_left]. rewrite (H e (or_introl eq_refl)). apply IH. intros e' Hin. apply H. right. exact Hin.
+Qed.
+
+Lemma entries_of_name fl name d e : In e (entries_of fl name d) -> fst (fst e) = name.
+Proof.
+  unfold entries_of. rewrite in_flat_map. intros (kp & _ & Hin). rewrite in_map_iff in Hin.
+  destruct Hin as (pc & <- & _). reflexivity.
+Qed.
+
+Lemma the_entries_names c e : In e (the_entries c) -> fst (fst e) <> A_FLAGS.
+Proof.
+  unfold the_entries, all_entries. cbn [flat_map fst snd]. rewrite app_nil_r, !in_app_iff.
+  intros [H|[H|H]]; apply entries_of_name in H; rewrite H; discriminate.
+Qed.
+
+Lemma io_flags_refines c p : io_flags c p = Some (model_flags c p).
+Proof.
+  unfold io_flags, model_flags, model_flags_with. rewrite vfw_block_cases.
+  change (Nat.eqb A_FLAGS A_FLAGS) with true. cbv iota.
+  set (I := map fst (locs (chunks_of (darr c A_FLAGS)) p)).
+  assert (E : forall orig, apply_data_lost (fun a J => is_placeholder (vfw_block c a J)) orig
+                             (lost_map_at (the_entries c) I) (map snd (locs (chunks_of (darr c A_FLAGS)) p)) =
+                           apply_data_lost (placeholder c) orig
+                             (lost_map_at (the_entries c) I) (map snd (locs (chunks_of (darr c A_FLAGS)) p))).
+  { intro orig. apply apply_data_lost_ext. intros e Hin. unfold lost_map_at in Hin. apply filter_In in Hin.
+    destruct Hin as [Hin _]. apply the_entries_names in Hin. rewrite vfw_block_cases.
+    apply Nat.eqb_neq in Hin. rewrite Hin. destruct (placeholder c (fst (fst e)) (snd (fst e))); reflexivity. }
+  destruct (placeholder c A_FLAGS I); cbn [block_value]; rewrite E; reflexivity.
+Qed.
+
+(* ================================================================================================ *)
+(* 3. histories *)
+
+Lemma zs_eqb_refl l : zs_eqb l l = true.
+Proof. induction l as [|x l IH]; simpl; [reflexivity|]. rewrite Z.eqb_refl, IH. reflexivity. Qed.
+
+Lemma zs_eqb_eq : forall a b, zs_eqb a b = true <-> a = b.
+Proof.
+  induction a as [|x a IH]; intros [|y b]; simpl; split; intro H; try discriminate; try reflexivity.
+  - apply andb_true_iff in H. destruct H as [H1 H2]. apply Z.eqb_eq in H1. apply IH in H2. congruence.
+  - inversion H; subst. rewrite Z.eqb_refl. apply zs_eqb_refl.
+Qed.
+
+Lemma last_write_app h1 h2 a id : last_write (h1 ++ h2) a id = fold_left (step a id) h2 (last_write h1 a id).
+Proof. unfold last_write. apply fold_left_app. Qed.
+
+(* the last operation on a chunk decides; operations on other chunks do not matter *)
+Lemma last_write_put h a id v : last_write (h ++ [Put a id v]) a id = Some v.
+Proof. rewrite last_write_app. cbn [fold_left]. unfold step, op_hits. rewrite Nat.eqb_refl, zs_eqb_refl. reflexivity. Qed.
+
+Lemma last_write_del h a id : last_write (h ++ [Del a id]) a id = None.
+Proof. rewrite last_write_app. cbn [fold_left]. unfold step, op_hits. rewrite Nat.eqb_refl, zs_eqb_refl. reflexivity. Qed.
+
+Lemma last_write_other h o a id : op_hits o a id = false -> last_write (h ++ [o]) a id = last_write h a id.
+Proof. intro H. rewrite last_write_app. cbn [fold_left]. unfold step. rewrite H. reflexivity. Qed.
+
+Lemma last_write_nil a id : last_write [] a id = None.
+Proof. reflexivity. Qed.
+
+(* cfg_ok only looks at the chunkings and the window *)
+Lemma cfg_ok_hist chunks win vals1 vals2 h1 h2 p :
+  cfg_ok (hist_cfg chunks win vals1 h1) p -> cfg_ok (hist_cfg chunks win vals2 h2) p.
+Proof. intro H. exact H. Qed.
+
+Definition hist_id (chunks : list (list (list Z))) (win : list (option (Z * Z))) (a : nat) (p : list Z) : list Z :=
+  let c := hist_cfg chunks win (fun _ _ _ => 0) [] in chunk_id (arr_chunks c a) (gpos c (own c a p)).
+Definition hist_pos (chunks : list (list (list Z))) (win : list (option (Z * Z))) (a : nat) (p : list Z) : list Z :=
+  let c := hist_cfg chunks win (fun _ _ _ => 0) [] in gpos c (own c a p).
+
+Lemma hist_lost_in chunks win vals h a p :
+  lost_in (hist_cfg chunks win vals h) a p =
+  match last_write h a (hist_id chunks win a p) with None => true | Some _ => false end.
+Proof. reflexivity. Qed.
+
+Lemma hist_stored chunks win vals h a p :
+  stored (hist_cfg chunks win vals h) a p =
+  match last_write h a (hist_id chunks win a p) with Some v => vals v a (hist_pos chunks win a p) | None => 0 end.
+Proof. reflexivity. Qed.
+
+(* a load at any point of a history: every element shows the version last written to its chunk, or is lost *)
+Lemma hist_vis chunks win vals h p : cfg_ok (hist_cfg chunks win vals h) p ->
+  model_vis (hist_cfg chunks win vals h) p =
+  match last_write h A_VIS (hist_id chunks win A_VIS p) with
+  | Some v => vals v A_VIS (hist_pos chunks win A_VIS p) | None => 0 end.
+Proof.
+  intro OK. rewrite (vis_model_is_spec _ _ OK). unfold spec_vis. rewrite hist_lost_in, hist_stored.
+  destruct (last_write h A_VIS (hist_id chunks win A_VIS p)); reflexivity.
+Qed.
+
+Lemma hist_weights chunks win vals h p : cfg_ok (hist_cfg chunks win vals h) p ->
+  model_weights (hist_cfg chunks win vals h) p =
+  match last_write h A_W (hist_id chunks win A_W p), last_write h A_WC (hist_id chunks win A_WC p) with
+  | Some v, Some v' => vals v A_W (hist_pos chunks win A_W p) * vals v' A_WC (hist_pos chunks win A_WC p)
+  | _, _ => 0 end.
+Proof.
+  intro OK. rewrite (weights_model_is_spec _ _ OK). unfold spec_weights. rewrite !hist_lost_in, !hist_stored.
+  destruct (last_write h A_W (hist_id chunks win A_W p)), (last_write h A_WC (hist_id chunks win A_WC p)); reflexivity.
+Qed.
+
+Definition absent (h : list op) (a : nat) (id : list Z) : bool :=
+  match last_write h a id with None => true | Some _ => false end.
+
+Lemma hist_flags chunks win vals h p : cfg_ok (hist_cfg chunks win vals h) p ->
+  model_flags (hist_cfg chunks win vals h) p =
+  Z.lor (match last_write h A_FLAGS (hist_id chunks win A_FLAGS p) with
+         | Some v => vals v A_FLAGS (hist_pos chunks win A_FLAGS p) | None => DATA_LOST end)
+        (if absent h A_VIS (hist_id chunks win A_VIS p) || absent h A_W (hist_id chunks win A_W p) ||
+            absent h A_WC (hist_id chunks win A_WC p) then DATA_LOST else 0).
+Proof.
+  intro OK. rewrite (flags_model_is_spec _ _ OK). unfold spec_flags, absent. rewrite !hist_lost_in, !hist_stored.
+  destruct (last_write h A_FLAGS (hist_id chunks win A_FLAGS p)); reflexivity.
+Qed.
+
+(* two histories that leave the same chunks in the store give the same load *)
+Lemma hist_final_state chunks win vals h1 h2 p :
+  (forall a id, last_write h1 a id = last_write h2 a id) -> cfg_ok (hist_cfg chunks win vals h1) p ->
+  model_vis (hist_cfg chunks win vals h1) p = model_vis (hist_cfg chunks win vals h2) p /\
+  model_weights (hist_cfg chunks win vals h1) p = model_weights (hist_cfg chunks win vals h2) p /\
+  model_flags (hist_cfg chunks win vals h1) p = model_flags (hist_cfg chunks win vals h2) p.
+Proof.
+  intros E OK. pose proof (cfg_ok_hist chunks win vals vals h1 h2 p OK) as OK2.
+  rewrite (hist_vis _ _ _ _ _ OK), (hist_vis _ _ _ _ _ OK2), (hist_weights _ _ _ _ _ OK), (hist_weights _ _ _ _ _ OK2),
+          (hist_flags _ _ _ _ _ OK), (hist_flags _ _ _ _ _ OK2).
+  unfold absent. rewrite !E. repeat split; reflexivity.
+Qed.
+
+(* a chunk that arrives later is seen by the next load; a chunk removed later is lost in the next load *)
+Lemma hist_put_seen chunks win vals h v p : cfg_ok (hist_cfg chunks win vals h) p ->
+  model_vis (hist_cfg chunks win vals (h ++ [Put A_VIS (hist_id chunks win A_VIS p) v])) p =
+  vals v A_VIS (hist_pos chunks win A_VIS p).
+Proof.
+  intro OK. rewrite hist_vis by exact (cfg_ok_hist _ _ vals vals h _ _ OK). rewrite last_write_put. reflexivity.
+Qed.
+
+Lemma hist_del_lost chunks win vals h a p : cfg_ok (hist_cfg chunks win vals h) p ->
+  (a = A_VIS \/ a = A_W \/ a = A_WC \/ a = A_FLAGS) ->
+  let c := hist_cfg chunks win vals (h ++ [Del a (hist_id chunks win a p)]) in
+  Z.testbit (model_flags c p) 3 = true /\ (a = A_VIS -> model_vis c p = 0) /\
+  (a = A_W \/ a = A_WC -> model_weights c p = 0).
+Proof.
+  intros OK Ha c.
+  assert (OK2 : cfg_ok c p) by exact (cfg_ok_hist _ _ vals vals h _ _ OK).
+  assert (L : lost_in c a p = true).
+  { unfold c. rewrite hist_lost_in, last_write_del. reflexivity. }
+  split; [|split].
+  - destruct (flag_bits c p OK2) as [B _]. rewrite B. unfold any_lost.
+    destruct Ha as [->|[->|[->| ->]]]; rewrite L; rewrite ?orb_true_r; reflexivity.
+  - intros ->. rewrite (vis_model_is_spec c p OK2). unfold spec_vis. rewrite L. reflexivity.
+  - intros [-> | ->]; rewrite (weights_model_is_spec c p OK2); unfold spec_weights; rewrite L; rewrite ?orb_true_r; reflexivity.
+Qed.
